@@ -91,7 +91,7 @@ func cmdFunc(args []string) {
 			continue
 		}
 		res := e.VerifyFunc(key)
-		sv := &Solver{Dir: dir, Timeout: *timeout, Par: runtime.NumCPU(), Prelude: e.Prelude()}
+		sv := &Solver{Dir: dir, Timeout: *timeout, Par: runtime.NumCPU(), Prelude: e.Prelude(), QFPrelude: e.QFPrelude()}
 		sv.SolveAll(res.Obligations)
 		fmt.Printf("== %s: %d obligations, %d unsupported\n", key, len(res.Obligations), len(res.Unsupported))
 		for _, u := range res.Unsupported {
